@@ -157,8 +157,8 @@ def fam_reset_grid(seed, shard, nshards, n):
 
 def fam_splits(seed, shard, nshards, n):
     """numpy's `linspace(0, n-1, num=L+1, dtype=int)` vectors (inputs of the `rooms` theorems): the
-    model's executable form of the theorems' hypothesis `SplitsOK` (and of the code's duplicate check)
-    must say about them what an independent reading of the definition says"""
+    model's executable form of the theorems' hypothesis `SplitsOK` (and of the code's check that no two
+    split lines are adjacent) must say about them what an independent reading of the definition says"""
     k = 0
     for side in range(1, 41):
         for lay in range(1, 9):
@@ -167,5 +167,5 @@ def fam_splits(seed, shard, nshards, n):
                 continue
             l = splits(side, lay)
             ok = len(l) >= 2 and l[0] == 0 and l[-1] == side - 1 and all(b - a >= 2 for a, b in zip(l, l[1:]))
-            dup = len(set(l)) != len(l)
-            yield f'splitsok {side} {len(l)} ' + ' '.join(map(str, l)), ('T' if ok else 'F') + ' ' + ('T' if dup else 'F'), 'splits-' + ('ok' if ok else ('dup' if dup else 'narrow'))
+            dup = any(b - a < 2 for a, b in zip(l, l[1:]))
+            yield f'splitsok {side} {len(l)} ' + ' '.join(map(str, l)), ('T' if ok else 'F') + ' ' + ('T' if dup else 'F'), 'splits-' + ('ok' if ok else ('close' if dup else 'ends'))
